@@ -1128,3 +1128,227 @@ Proof.
   - pose proof (leader_auth _ _ _ L Ig). lia.
   - rewrite EA. destruct (if shared then _ else _); auto.
 Qed.
+
+(* ---------- how one step changes the gate lists: the open order is kept ---------- *)
+Definition hl (r : region) : list N := map g_h (r_gates r).
+Definition neqb (h : N) : N -> bool := fun k => negb (k =? h).
+
+Definition shape (s s' : ctl) : Prop :=
+  (c_live s' = c_live s /\ map hl (c_regions s') = map hl (c_regions s)) \/
+  (exists h l1 r l2 r', ~ In h (handles (c_regions s)) /\ c_regions s = l1 ++ r :: l2 /\
+      c_regions s' = l1 ++ r' :: l2 /\ hl r' = hl r ++ [h] /\ c_live s' = c_live s ++ [h]) \/
+  (exists h l1 l2 r', ~ In h (handles (c_regions s)) /\ c_regions s = l1 ++ l2 /\
+      c_regions s' = l1 ++ r' :: l2 /\ hl r' = [h] /\ c_live s' = c_live s ++ [h]) \/
+  (exists h l1 r l2, c_regions s = l1 ++ r :: l2 /\ In h (hl r) /\
+      c_live s' = filter (neqb h) (c_live s) /\
+      ((exists r', c_regions s' = l1 ++ r' :: l2 /\ hl r' = filter (neqb h) (hl r)) \/
+       (c_regions s' = l1 ++ l2 /\ filter (neqb h) (hl r) = []))).
+
+Lemma shape_same rs nr us lv us' : shape (Ctl rs nr us lv) (Ctl rs nr us' lv).
+Proof. left. simpl. auto. Qed.
+
+Lemma step_shape shared s o s' ou :
+  cinv s -> step true shared s o = (s', ou) -> shape s s'.
+Proof.
+  intros I. pose proof I as (FI & ND & LV & US & NR & FR).
+  destruct s as [rs nr us lv]. simpl in *.
+  destruct o as [c|h a|h]; unfold step; simpl.
+  - unfold open_gate. simpl.
+    destruct (existsb (N.eqb (o_h c)) us) eqn:U.
+    { intros H; inversion H; subst. apply shape_same. }
+    apply existsb_eqb_false in U.
+    destruct ((o_subj c =? 0) || tr_is_zero (o_tr c)).
+    { intros H; inversion H; subst. apply shape_same. }
+    assert (NH : ~ In (o_h c) (handles rs)) by (intros X; apply U, US; auto).
+    destruct (n_overlapping c rs) as [|[|n]] eqn:NO.
+    + unfold new_region. simpl. destruct (o_resfail c).
+      { intros H; inversion H; subst. apply shape_same. }
+      rewrite region_open_empty. unfold insert_region.
+      set (i := bsearch _ _ _ _ _).
+      intros H; inversion H; subst s' ou. clear H.
+      right. right. left.
+      exists (o_h c), (firstn i rs), (skipn i rs). eexists. simpl. splits; eauto.
+      symmetry. apply firstn_skipn.
+    + destruct (open_in_split shared c _ NO) as (l1 & r & l2 & r' & st & x & E & RO & ->).
+      rewrite E in FI. apply Forall_mid in FI. destruct FI as (F1 & Ir & F2).
+      assert (NHr : ~ In (o_h c) (map g_h (r_gates r))).
+      { intros X. apply NH. rewrite E, handles_mid, in_mid. auto. }
+      destruct (region_open_inv _ _ _ _ _ _ Ir NHr RO) as (Ir' & ER & XR & GOk & GNo & NP).
+      assert (NonOk : st <> Ok -> shape (Ctl rs nr us lv) (Ctl (l1 ++ r' :: l2) nr (us ++ [o_h c]) lv)).
+      { intros N. destruct (GNo N) as [EG _]. left. simpl. split; auto.
+        rewrite E, !map_app. simpl. unfold hl at 2 4. rewrite EG. auto. }
+      destruct st; try (intros H; inversion H; subst s' ou; apply NonOk; discriminate).
+      intros H; inversion H; subst s' ou. clear H NonOk.
+      right. left. exists (o_h c), l1, r, l2, r'. simpl. splits; auto.
+      unfold hl. rewrite (GOk eq_refl), map_app. auto.
+    + intros H; inversion H; subst. apply shape_same.
+  - destruct (existsb (N.eqb h) lv) eqn:Lv.
+    2:{ intros H; inversion H; subst. apply shape_same. }
+    apply existsb_eqb_true in Lv. apply LV in Lv.
+    destruct (on_region_split h _ Lv) as (l1 & r & l2 & E & Hh & Eo). rewrite Eo.
+    rewrite E in FI. apply Forall_mid in FI. destruct FI as (F1 & Ir & F2).
+    destruct (region_update (fun l => l) r h a) as [[r' st] x] eqn:RU.
+    destruct (region_update_inv _ _ _ _ _ _ _ Ir is_perm_id Hh RU) as (Ir' & -> & ER & EH & XR & _).
+    simpl. intros H; inversion H; subst s' ou. clear H.
+    left. simpl. split; auto. rewrite E, !map_app. simpl. unfold hl at 2 4. rewrite EH. auto.
+  - destruct (existsb (N.eqb h) lv) eqn:Lv.
+    2:{ intros H; inversion H; subst. apply shape_same. }
+    apply existsb_eqb_true in Lv. apply LV in Lv.
+    destruct (on_region_split h _ Lv) as (l1 & r & l2 & E & Hh & Eo). rewrite Eo.
+    rewrite E in FI. apply Forall_mid in FI. destruct FI as (F1 & Ir & F2).
+    destruct (region_release (fun l => l) r h) as [[[r' x] res] rm] eqn:RR.
+    destruct (region_release_inv _ _ _ _ _ _ _ Ir is_perm_id Hh RR) as (ER & EG & _ & Post).
+    simpl. intros H; inversion H; subst s' ou. clear H.
+    destruct (NoDup_res_mid _ _ _ (eq_ind _ (fun l => NoDup (map r_res l)) NR _ E)) as (R1 & R2 & _).
+    assert (EHL : hl r' = filter (neqb h) (hl r)).
+    { unfold hl. rewrite EG. apply filter_h_map. }
+    right. right. right. exists h, l1, r, l2. simpl. splits; auto.
+    destruct rm.
+    + destruct Post as (G0 & -> & _). right. split.
+      * rewrite <- ER. apply remove_region_mid; auto. rewrite ER; auto.
+      * rewrite <- EHL. unfold hl. rewrite G0. auto.
+    + left. exists r'. auto.
+Qed.
+
+(* ---------- the open order ---------- *)
+Definition linv (s : ctl) : Prop :=
+  forall l, In l (map hl (c_regions s)) -> restr l (c_live s) = l.
+
+Lemma memb_iff h l : existsb (N.eqb h) l = true <-> In h l.
+Proof. split; [apply existsb_eqb_true|]. intros I. apply existsb_exists. exists h. split; auto. apply N.eqb_refl. Qed.
+Lemma memb_false h l : ~ In h l -> existsb (N.eqb h) l = false.
+Proof. intros N. destruct (existsb (N.eqb h) l) eqn:E; auto. apply memb_iff in E. contradiction. Qed.
+
+Lemma filter_comm {A} (f g : A -> bool) l : filter f (filter g l) = filter g (filter f l).
+Proof.
+  induction l as [|a rest IH]; simpl; auto.
+  destruct (f a) eqn:Ef, (g a) eqn:Eg; simpl; rewrite ?Ef, ?Eg, IH; auto.
+Qed.
+
+Lemma filter_id {A} (f : A -> bool) l : (forall x, In x l -> f x = true) -> filter f l = l.
+Proof.
+  induction l as [|a rest IH]; simpl; auto. intros H. rewrite (H a); auto. rewrite IH; auto.
+Qed.
+
+Lemma filter_none {A} (f : A -> bool) l : (forall x, In x l -> f x = false) -> filter f l = [].
+Proof.
+  induction l as [|a rest IH]; simpl; auto. intros H. rewrite (H a); auto.
+Qed.
+
+Lemma in_hl_handles l rs : In l (map hl rs) -> forall h, In h l -> In h (handles rs).
+Proof.
+  intros I h Ih. apply in_map_iff in I. destruct I as (r & <- & Ir).
+  unfold handles. apply in_flat_map. exists r. auto.
+Qed.
+
+Lemma shape_linv s s' : cinv s -> linv s -> shape s s' -> linv s'.
+Proof.
+  intros (FI & ND & LV & US & NR & FR) L Sh.
+  destruct Sh as [(El & Eh)|[(h & l1 & r & l2 & r' & NH & E & E' & Eh & El)|
+                 [(h & l1 & l2 & r' & NH & E & E' & Eh & El)|(h & l1 & r & l2 & E & Hh & El & Cs)]]].
+  - intros l Il. rewrite El. apply L. rewrite <- Eh. auto.
+  - assert (NL : ~ In h (c_live s)) by (intros X; apply NH, LV; auto).
+    assert (Other : forall l, In l (map hl (c_regions s)) -> restr l (c_live s ++ [h]) = l).
+    { intros l Il. unfold restr. rewrite filter_app. simpl.
+      rewrite memb_false; [|intros X; apply NH; eapply in_hl_handles; eauto].
+      rewrite app_nil_r. apply L; auto. }
+    intros l Il. rewrite El. rewrite E', map_app in Il. simpl in Il.
+    apply in_app_or in Il. destruct Il as [Il|[<-|Il]].
+    + apply Other. rewrite E, map_app. apply in_or_app; auto.
+    + rewrite Eh. unfold restr. rewrite filter_app. simpl.
+      rewrite (proj2 (memb_iff h (hl r ++ [h]))); [|apply in_or_app; right; left; auto].
+      f_equal. transitivity (restr (hl r) (c_live s));
+        [|apply L; rewrite E, map_app; apply in_or_app; right; left; auto].
+      unfold restr. apply filter_ext_in. intros x Ix.
+      destruct (existsb (N.eqb x) (hl r)) eqn:Ex.
+      * apply memb_iff. apply in_or_app. left. apply memb_iff; auto.
+      * apply memb_false. intros X. apply in_app_or in X. destruct X as [X|[X|[]]].
+        -- apply memb_iff in X. congruence.
+        -- subst. contradiction.
+    + apply Other. rewrite E, map_app. apply in_or_app; right; right; auto.
+  - assert (NL : ~ In h (c_live s)) by (intros X; apply NH, LV; auto).
+    intros l Il. rewrite El. rewrite E', map_app in Il. simpl in Il.
+    assert (Other : forall l, In l (map hl (c_regions s)) -> restr l (c_live s ++ [h]) = l).
+    { intros l0 Il0. unfold restr. rewrite filter_app. simpl.
+      rewrite memb_false; [|intros X; apply NH; eapply in_hl_handles; eauto].
+      rewrite app_nil_r. apply L; auto. }
+    apply in_app_or in Il. destruct Il as [Il|[<-|Il]].
+    + apply Other. rewrite E, map_app. apply in_or_app; auto.
+    + rewrite Eh. unfold restr. rewrite filter_app. simpl. rewrite N.eqb_refl. simpl.
+      rewrite filter_none; auto. intros x Ix. simpl.
+      destruct (x =? h) eqn:Ex; auto. apply N.eqb_eq in Ex. subst. contradiction.
+    + apply Other. rewrite E, map_app. apply in_or_app; auto.
+  - rewrite E, handles_mid in ND.
+    assert (Restr : forall l, restr l (filter (neqb h) (c_live s)) = filter (neqb h) (restr l (c_live s))).
+    { intros l. unfold restr. apply filter_comm. }
+    assert (Other : forall l, In l (map hl l1) \/ In l (map hl l2) ->
+              restr l (filter (neqb h) (c_live s)) = l).
+    { intros l Il. rewrite Restr. rewrite L.
+      - apply filter_id. intros x Ix. unfold neqb. apply negb_true_iff, N.eqb_neq. intros ->.
+        destruct (NoDup_mid_disj _ _ _ h ND Hh) as [N1 N2].
+        destruct Il as [Il|Il]; [apply N1|apply N2]; eapply in_hl_handles; eauto.
+      - rewrite E, map_app. simpl. apply in_or_app. destruct Il; auto. right; right; auto. }
+    intros l Il. rewrite El.
+    destruct Cs as [(r' & E' & Eh)|(E' & Eh)]; rewrite E', map_app in Il; simpl in Il;
+      apply in_app_or in Il.
+    + destruct Il as [Il|[<-|Il]]; [apply Other; auto| |apply Other; auto].
+      rewrite Eh. rewrite Restr.
+      transitivity (filter (neqb h) (restr (hl r) (c_live s)));
+        [|f_equal; apply L; rewrite E, map_app; apply in_or_app; right; left; auto].
+      unfold restr. rewrite filter_comm. rewrite (filter_comm (neqb h)).
+      apply filter_ext_in. intros x Ix. apply filter_In in Ix. destruct Ix as [_ Nx].
+      unfold neqb in Nx. apply negb_true_iff, N.eqb_neq in Nx.
+      destruct (existsb (N.eqb x) (hl r)) eqn:Ex.
+      * apply memb_iff. apply filter_In. split; [apply memb_iff; auto|].
+        unfold neqb. apply negb_true_iff, N.eqb_neq. auto.
+      * apply memb_false. intros X. apply filter_In in X. destruct X as [X _].
+        apply memb_iff in X. congruence.
+    + destruct Il as [Il|Il]; apply Other; auto.
+Qed.
+
+Lemma linv_init : linv init.
+Proof. intros l []. Qed.
+
+Lemma run_linv shared ops : forall s, cinv s -> linv s -> linv (run true shared s ops).
+Proof.
+  induction ops as [|o rest IH]; simpl; auto. intros s I L.
+  destruct (step true shared s o) as [s' ou] eqn:E. simpl.
+  apply IH.
+  - pose proof (step_cinv shared s o I) as X. rewrite E in X. auto.
+  - eapply shape_linv; eauto. eapply step_shape; eauto.
+Qed.
+
+Lemma step_live shared s o :
+  c_live (fst (step true shared s o)) = live_next (c_live s) o (snd (step true shared s o)).
+Proof.
+  destruct o as [c|h a|h]; unfold step, step_gen, live_next.
+  - unfold open_gate.
+    destruct (existsb _ _); [reflexivity|].
+    destruct (_ || _); [reflexivity|].
+    destruct (n_overlapping c (c_regions s)) as [|[|n]].
+    + unfold new_region. destruct (o_resfail c); [reflexivity|].
+      rewrite region_open_empty. reflexivity.
+    + destruct (open_in shared c (c_regions s)) as [[rs' st] x]. destruct st; reflexivity.
+    + reflexivity.
+  - destruct (existsb _ _); [|reflexivity].
+    destruct (on_region _ _ _ _) as [rs' [st x]]. simpl.
+    destruct st; reflexivity.
+  - destruct (existsb _ _); [|reflexivity].
+    destruct (on_region _ _ _ _) as [rs' [[x res] rm]]. reflexivity.
+Qed.
+
+Lemma run_live shared ops : forall s,
+  c_live (run true shared s ops) = live_spec (c_live s) ops (outs true shared s ops).
+Proof.
+  induction ops as [|o rest IH]; simpl; auto. intros s.
+  pose proof (step_live shared s o) as SL.
+  destruct (step true shared s o) as [s' ou]. simpl in *. rewrite IH, SL. auto.
+Qed.
+
+Lemma gates_in_open_order shared ops r :
+  In r (c_regions (run true shared init ops)) ->
+  map g_h (r_gates r) = restr (map g_h (r_gates r)) (c_live (run true shared init ops)).
+Proof.
+  intros Ir. symmetry. apply (run_linv shared ops init cinv_init linv_init).
+  apply in_map_iff. exists r. auto.
+Qed.
